@@ -668,15 +668,16 @@ def run_loss_flags(ctx, model, scico):
     rng = ctx.rng
     classes = {"sql2": loss.SquaredL2Loss, "sql2abs": loss.SquaredL2AbsLoss, "sql2sqabs": loss.SquaredL2SquaredAbsLoss,
                "poisson": loss.PoissonLoss, "generic": loss.Loss}
-    for _ in range(ctx.n(60, 400)):
-        cname = list(classes)[int(rng.integers(len(classes)))]
-        acls = ["default", "identity", "sid", "diag", "linear", "nonlinear"][int(rng.integers(6))]
+    import itertools
+
+    # complete grid class x forward-operator class x sign of y (60 configurations), random data; repeated in the thorough tier
+    grid = list(itertools.product(list(classes), ["default", "identity", "sid", "diag", "linear", "nonlinear"], (False, True)))
+    for cname, acls, yneg in grid * ctx.n(1, 6):
         n = int(rng.integers(1, 5))
         dt = np.float64
         y = np.abs(common.dyadic(rng, (n,), bits=2, scale=3.0)) + (0.0 if rng.random() < 0.5 else 0.25)
-        yneg = bool(rng.random() < 0.35)
         if yneg:
-            y[int(rng.integers(n))] = -0.5
+            y[int(rng.integers(n))] = -float(rng.choice([0.5, 1.0, 2.0]))
         if acls == "default":
             A = None
         elif acls == "identity":
@@ -696,17 +697,33 @@ def run_loss_flags(ctx, model, scico):
         case = {"lossflags": cname, "A": acls, "y": y.tolist()}
         ctx.case({"lossflags": cname, "A": acls, "yneg": yneg}, ("lossflags", cname, acls, yneg))
         ctx.count(f"lossflags:{cname}:{acls}:has_prox={impl_flags[1]}")
-        v = snp.array(np.abs(common.dyadic(rng, (n,), bits=2, scale=3.0)) + 0.25)
-        pr = _impl(lambda: np.asarray(L.prox(v, 0.5)))
+        v = snp.array(np.abs(common.dyadic(rng, (n,), bits=2, scale=3.0)) * float(rng.choice([0.125, 1.0])) + 0.125)
+        lam = float(rng.choice([0.5, 4.0]))
+        pr = _impl(lambda: np.asarray(L.prox(v, lam)))
         ev = _impl(lambda: float(L(v)))
 
-        def oracle(_c, impl_flags=impl_flags, pr=pr, ev=ev):
+        def oracle(_c, impl_flags=impl_flags, pr=pr, ev=ev, L=L, v=v, lam=lam, cname=cname, acls=acls):
             if impl_flags[1] and pr[0] == "err":
                 return {"what": "has_prox is True but prox raises", "kind": pr[1], "v": np.asarray(v).tolist()}
             if not impl_flags[1] and pr[0] == "ok":
                 return {"what": "has_prox is False but prox returns a value", "v": np.asarray(v).tolist()}
             if impl_flags[0] != (ev[0] == "ok"):
                 return {"what": "has_eval does not tell whether __call__ works", "has_eval": impl_flags[0], "call": list(ev)[:1]}
+            if impl_flags[1] and pr[0] == "ok" and cname in ("sql2abs", "sql2sqabs") and acls in ("default", "identity"):
+                # advertised prox of a separable loss (A = I): is each entry a minimiser of lam*L + 0.5 (x - v)^2 ?  (grid search
+                # over one entry at a time, the others kept at the returned values)
+                p = np.asarray(pr[1], dtype=float)
+                obj = lambda z: lam * float(L(snp.array(z))) + 0.5 * float(np.sum((z - np.asarray(v)) ** 2))  # noqa: E731
+                base = obj(p)
+                for i in range(p.size):
+                    for c in np.linspace(-4.0, 4.0, 257):
+                        z = p.copy()
+                        z[i] = c
+                        val = obj(z)
+                        if val < base - 1e-7 * (1 + abs(base)):
+                            return {"what": "has_prox is True but the returned point is not a minimiser of lam*L(x) + 0.5|x - v|^2",
+                                    "y": np.asarray(L.y).tolist(), "v": np.asarray(v).tolist(), "lam": lam, "prox": p.tolist(),
+                                    "objective_at_prox": base, "better_point": z.tolist(), "objective_there": val}
             return None
 
         if impl_flags != (r["he"], r["hp"]):
